@@ -272,7 +272,8 @@ impl Rec {
         self.case_no += 1;
         // optional sampling (HARNESS_SAMPLE=N keeps about one case in N, the same ones in every shard layout)
         // (the seed moves the sample, so runs with different VERIF_SEED values look at different cases)
-        let keep = self.sample <= 1 || ((self.case_no ^ self.seed.wrapping_mul(0x632B_E59B_D9B4_E019)).wrapping_mul(0x9E3779B97F4A7C15) >> 33) % self.sample == 0;
+        // (cases that exercise documented failure cases or invalid arguments are never sampled away)
+        let keep = self.sample <= 1 || label.starts_with("invalid") || label.starts_with("always") || ((self.case_no ^ self.seed.wrapping_mul(0x632B_E59B_D9B4_E019)).wrapping_mul(0x9E3779B97F4A7C15) >> 33) % self.sample == 0;
         if keep {
             self.kept += 1;
         }
